@@ -55,11 +55,21 @@ ArgsOf(e, f) == CASE e.act = "apply" -> FzApply(f, e.args)
                   [] e.act = "slice" -> FzSlice(f, e.args)
                   [] e.act = "stack" -> IF "defaultdim" \in DOMAIN e.args THEN [e.args EXCEPT !.dim = DefaultStackDim(f)] ELSE e.args
                   [] OTHER -> e.args
+\* the standard deviation is decided through its square: a call that names
+\* "std" for one dimension is the "var" call, compared with the squares of the
+\* result (logged as e.sq: the result file with the reduced variables squared)
+StdCall(a) == Len(a.funcs) = 1 /\ a.funcs[1].kind = "reducer" /\ a.funcs[1].f = "std"
+AsVar(a) == IF StdCall(a) THEN [a EXCEPT !.funcs = <<[a.funcs[1] EXCEPT !.f = "var"]>>] ELSE a
+NonNegDiag(g, f, a) ==
+  IF \E i \in 1..Len(g.vars) : g.vars[i].enc = "num" /\ VarHasDim(g.vars[i], a.funcs[1].d)
+        /\ \E k \in 1..Len(g.vars[i].vals) : ~g.vars[i].mask[k] /\ g.vars[i].vals[k].d > 0 /\ g.vars[i].vals[k].n < 0
+  THEN "a standard deviation is negative" ELSE ""
+
 InDomain(e, hp) ==
   LET f == hp[e.src] a == ArgsOf(e, f) IN
   CASE e.act = "copy" -> Dom_copy(f, a)
     [] e.act = "slice" -> Dom_slice(f, a)
-    [] e.act = "apply" -> Dom_apply(f, a)
+    [] e.act = "apply" -> Dom_apply(f, AsVar(a))
     [] e.act = "stack" -> a.dim # "" /\ Dom_stack(Files(hp, <<e.src>> \o e.others), a)
     [] e.act = "subset" -> Dom_subset(f, a)
     [] e.act = "renamevar" -> Dom_renamevar(f, a)
@@ -77,7 +87,7 @@ InDomain(e, hp) ==
 
 Decidable(e, hp) ==
   LET f == hp[e.src] a == ArgsOf(e, f) IN
-  CASE e.act = "apply" -> Dec_apply(f, a)
+  CASE e.act = "apply" -> Dec_apply(f, AsVar(a)) /\ (StdCall(a) => "sq" \in DOMAIN e)
     [] e.act = "arith" -> Dec_arith(Files(hp, <<e.src>> \o e.others), a)
     [] e.act = "eval" -> Dec_eval(f, a)
     [] e.act = "mask" -> Dec_mask(f, a)
@@ -87,7 +97,10 @@ ResultDiff(e, hp, g) ==
   LET f == hp[e.src] a == ArgsOf(e, f) IN
   CASE e.act = "copy" -> FileDiff(g, Exp_copy(f, a), "full")
     [] e.act = "slice" -> FileDiff(g, Exp_slice(f, a), "full")
-    [] e.act = "apply" -> FileDiff(g, Exp_apply(f, a), "val")
+    [] e.act = "apply" -> IF StdCall(a)
+                          THEN (IF NonNegDiag(g, f, a) # "" THEN NonNegDiag(g, f, a)
+                                ELSE FileDiff(NFile(e.sq), Exp_apply(f, AsVar(a)), "val"))
+                          ELSE FileDiff(g, Exp_apply(f, a), "val")
     [] e.act = "stack" -> FileDiff(g, Exp_stack(Files(hp, <<e.src>> \o e.others), a), "full")
     [] e.act = "subset" -> FileDiff(g, Exp_subset(f, a), "full")
     [] e.act = "renamevar" -> FileDiff(g, Exp_renamevar(f, a), "full")
